@@ -134,7 +134,10 @@ func (c *verifCache) evict(key string) {
 
 func (c *verifCache) truncate(key string, k int) {
 	c.mu.Lock()
-	c.trunc[key] = k
+	// an entry that already lost its tail does not grow back
+	if old, ok := c.trunc[key]; !ok || k < old {
+		c.trunc[key] = k
+	}
 	c.mu.Unlock()
 }
 
